@@ -14,7 +14,11 @@
                   out = [ct (size*(n+1), limb-major, word 0 of each limb = body); decrypted (dsize); [limb; log2 scale]]
    1003 GLWE pk : vs = [pt; s; ua (mask stream of the public key); e_pk (n); u (n); es ((rank+1)*n)]
                   out = [pk (columns); ct (columns); decrypted; [limb; log2 scale]]
-   1004 GLWE compressed sk: vs as 1001; out = [compressed body (size*n); decompressed ct; decrypted; [limb; log2 scale]] *)
+   1004 GLWE compressed sk: vs as 1001; out = [compressed body (size*n); decompressed ct; decrypted; [limb; log2 scale]]
+   1006 GLWE pk, scratch independence: out = [[outputs equal under two garbage fills of the scratch]]
+   1005 GLWE zero sk (glwe_encrypt_zero_sk: no plaintext): vs as 1001 with an empty plaintext; out as 1001
+   Every scratch arena of the harness is pre-filled with garbage (two different fills must give the same outputs) and dirtied by a
+   warm-up encryption: the model has no scratch input, so any dependence on it is a disagreement. *)
 From PV Require Import Base.MachineInt Model.Znx Model.Limbs Model.Flat Model.DftAbs Model.EncModel.
 Open Scope Z_scope.
 
@@ -39,7 +43,7 @@ Definition stream (l : list Z) : nat -> Z := fun i => nthZ l i.
 
 Definition noise_out (nk b : Z) : list Z := [Z.of_nat (target_limb nk b); scale_log2 nk b].
 
-Definition run_glwe_sk (compressed : bool) (ps : list Z) (vs : list (list Z)) : option (list (list Z)) :=
+Definition run_glwe_sk (compressed zero : bool) (ps : list Z) (vs : list (list Z)) : option (list (list Z)) :=
   let wb := wbig (p ps 0) in
   let n := np ps 1 in let b := p ps 2 in let size := np ps 3 in let rank := np ps 4 in let nk := p ps 5 in
   let psize := np ps 6 in let dsize := np ps 8 in let db := p ps 9 in
@@ -48,9 +52,10 @@ Definition run_glwe_sk (compressed : bool) (ps : list Z) (vs : list (list Z)) : 
   let us := stream (v vs 2) in
   let e := v vs 3 in
   (* glwe_encrypt_sk / glwe_compressed_encrypt_sk: assert_eq!(pt.base2k(), res.base2k()) *)
-  if negb (p ps 7 =? b) then None else
+  if negb zero && negb (p ps 7 =? b) then None else
+  let ptopt := if zero then None else Some (pt, O) in
   if compressed then
-    match enc_sk_compressed wb b n size rank nk (Some (pt, O)) sk us e with
+    match enc_sk_compressed wb b n size rank nk ptopt sk us e with
     | None => None
     | Some body =>
         let ct := decompress_glwe b n size rank body us in
@@ -60,7 +65,7 @@ Definition run_glwe_sk (compressed : bool) (ps : list Z) (vs : list (list Z)) : 
         end
     end
   else
-    match enc_sk wb b n size rank nk (Some (pt, O)) sk us e with
+    match enc_sk wb b n size rank nk ptopt sk us e with
     | None => None
     | Some ct =>
         match dec_glwe wb b db n size dsize sk ct with
@@ -110,9 +115,14 @@ Definition run_glwe_pk (ps : list Z) (vs : list (list Z)) : option (list (list Z
 
 Definition run_c01 (code : Z) (ps : list Z) (vs : list (list Z)) : option (list (list Z)) :=
   match code with
-  | 1001 => run_glwe_sk false ps vs
+  | 1001 => run_glwe_sk false false ps vs
+  | 1005 => run_glwe_sk false true ps vs
   | 1002 => run_lwe_sk ps vs
   | 1003 => run_glwe_pk ps vs
-  | 1004 => run_glwe_sk true ps vs
+  | 1004 => run_glwe_sk true false ps vs
+  | 1006 =>
+      (* glwe_encrypt_pk on a zeroed scratch arena and under two garbage fills: all outputs coincide (since fb6b3bd the ephemeral
+         secret of a Distribution::ZERO key is zeroed instead of being left as the scratch holds it) *)
+      if p ps 7 =? p ps 2 then Some [[1]] else None
   | _ => None
   end.
